@@ -80,8 +80,8 @@ impl Header {
             + version_bytes.len()
             + self.version.header_len_bytes_len()
             + fmt_dict.len();
-        let rem = len % ALIGN;
-        let pad_len = if rem == 0 { 0 } else { ALIGN - rem };
+        // The padding always includes the terminating newline, so it is never empty
+        let pad_len = ALIGN - len % ALIGN;
         assert_eq!((len + pad_len) % ALIGN, 0);
 
         let header_len = fmt_dict.len() + pad_len;
